@@ -1039,6 +1039,21 @@ func C13(c *core.Ctx) {
 			P, delta = phi, d
 		})
 		key := "ordered-progress-invariant:" + mk
+		if P != nil && skipDefault != nil && !P.Block().Dominates(skipDefault.Block()) {
+			// the invariant is about the unknown-element branch INSIDE the field loop (a skip
+			// made before the loop is entered never meets the loop's post-increment)
+			var inLoop ssa.Instruction
+			core.Instrs(fn, func(in ssa.Instruction) {
+				if inLoop == nil && isSkipL(in) && P.Block().Dominates(in.Block()) {
+					for _, f := range core.EdgeFacts(fn, ign) {
+						if f.Holds && (in.Block() == f.E.To || f.E.From.Dominates(in.Block())) {
+							inLoop = in
+						}
+					}
+				}
+			})
+			skipDefault = inLoop
+		}
 		if P == nil || skipDefault == nil || mixed {
 			c.Und("R13.3", key, p.Pos(fn.Pos()), "cannot identify the field cursor (progress) or the unknown-element branch of the ordered parser")
 			continue
@@ -1124,6 +1139,164 @@ func C13(c *core.Ctx) {
 			}
 		}
 		c.Decide(okInv, "R13.3", key, c.Pos(skipDefault), "unknown-element branch decrements progress before the post-increment (net 0)", "ordered parser of "+mk+": "+detail+"; every field after an unrecognised non-critical element is then matched against the wrong position and silently dropped")
+		// ---- R13.13 every element the ordered parser reads is consumed or refused. The field
+		// loop runs the cursor forward until the element's field is reached; for an element
+		// whose field lies BEHIND the cursor (a known type arriving late, e.g. a second
+		// ApplicationParameters after the signature) the cursor runs off the end: every
+		// remaining field's absent-action fires (the digest and signature ranges are closed at
+		// this element), the value is not skipped but parsed as further elements, and nothing
+		// after it is interpreted any more. Accepted: (i) the exhaustion exit of the field
+		// loop skips the value or returns before the next element is read, or (ii) the field
+		// loop is entered only behind a test, per known type, that the cursor has not passed
+		// that type's position, whose failing side consumes or refuses the element.
+		{
+			k13 := "ordered-element-consumed-or-refused:" + mk
+			var typRead *ssa.Call
+			core.Instrs(fn, func(in ssa.Instruction) {
+				if cl, ok := in.(*ssa.Call); ok && typRead == nil {
+					if id, ok := core.Callee(&cl.Call); ok && id.Pkg == "std/encoding" && id.Name == "ReadTLNum" {
+						typRead = cl
+					}
+				}
+			})
+			var typVal ssa.Value
+			if typRead != nil {
+				for _, r := range core.Refs(typRead) {
+					if ex, ok := r.(*ssa.Extract); ok && ex.Index == 0 {
+						typVal = ex
+					}
+				}
+			}
+			var bif *ssa.If
+			core.Instrs(fn, func(in ssa.Instruction) {
+				bo, ok := in.(*ssa.BinOp)
+				if !ok || bo.X != ssa.Value(P) || (bo.Op != token.LSS && bo.Op != token.LEQ) {
+					return
+				}
+				if _, isC := core.ConstInt(bo.Y); !isC {
+					return
+				}
+				for _, r := range core.Refs(bo) {
+					if iff, isIf := r.(*ssa.If); isIf {
+						bif = iff
+					}
+				}
+			})
+			if typRead == nil || typVal == nil || bif == nil {
+				c.Und("R13.13", k13, p.Pos(fn.Pos()), "cannot identify the element read or the bound test of the field loop")
+			} else {
+				isConsume := func(in ssa.Instruction) bool {
+					ci, ok := in.(ssa.CallInstruction)
+					if !ok {
+						return false
+					}
+					cc := ci.Common()
+					return cc.IsInvoke() && cc.Method.Name() == "Skip"
+				}
+				hin := P.Block()
+				exhaust := bif.Block().Succs[1]
+				formI := core.ReachInstrFrom(core.Point{Block: exhaust, Idx: 0}, typRead, nil, isConsume) == nil
+				// the type under whose case a block lies
+				caseOf := func(b *ssa.BasicBlock) (int64, bool) {
+					for d := b; d != nil; d = d.Idom() {
+						id := d.Idom()
+						if id == nil {
+							break
+						}
+						iff, ok := id.Instrs[len(id.Instrs)-1].(*ssa.If)
+						if !ok || id.Succs[0] != d || len(d.Preds) != 1 {
+							continue
+						}
+						bo, ok := iff.Cond.(*ssa.BinOp)
+						if !ok || bo.Op != token.EQL || core.StripConv(bo.X) != core.StripConv(typVal) {
+							continue
+						}
+						if k, isC := core.ConstInt(bo.Y); isC {
+							return k, true
+						}
+					}
+					return 0, false
+				}
+				// the cursor as the field loop sees it (P) and as it is before the loop is
+				// entered (the value P starts from: the outer loop's copy of the variable)
+				cursors := map[ssa.Value]bool{P: true}
+				for j, e := range P.Edges {
+					if !P.Block().Dominates(P.Block().Preds[j]) {
+						cursors[e] = true
+					}
+				}
+				posOf := func(v ssa.Value) bool { // v denotes the cursor's position (cursor + delta)
+					if delta == 0 {
+						return cursors[v]
+					}
+					b, ok := v.(*ssa.BinOp)
+					if !ok || b.Op != token.ADD || !cursors[b.X] {
+						return false
+					}
+					k, isC := core.ConstInt(b.Y)
+					return isC && k == delta
+				}
+				inPairs := map[[2]int64]bool{}
+				guardPairs := map[[2]int64]bool{}
+				var guardCmps []*ssa.BinOp
+				core.Instrs(fn, func(in ssa.Instruction) {
+					bo, ok := in.(*ssa.BinOp)
+					if !ok || !posOf(bo.X) {
+						return
+					}
+					k, isC := core.ConstInt(bo.Y)
+					if !isC {
+						return
+					}
+					t, under := caseOf(bo.Block())
+					if !under {
+						return
+					}
+					inner := hin.Dominates(bo.Block())
+					switch {
+					case bo.Op == token.EQL && inner:
+						inPairs[[2]int64{t, k}] = true
+					case bo.Op == token.GTR && !inner:
+						guardPairs[[2]int64{t, k}] = true
+						guardCmps = append(guardCmps, bo)
+					case bo.Op == token.GEQ && !inner:
+						guardPairs[[2]int64{t, k - 1}] = true
+						guardCmps = append(guardCmps, bo)
+					}
+				})
+				formII := false
+				if len(guardCmps) > 0 {
+					covers := true
+					for pr := range inPairs {
+						if !guardPairs[pr] {
+							covers = false
+						}
+					}
+					// the flag that collects the tests, and the branch on it
+					var flag *ssa.Phi
+					for _, r := range core.Refs(guardCmps[0]) {
+						if ph, ok := r.(*ssa.Phi); ok {
+							flag = ph
+						}
+					}
+					if flag != nil && covers {
+						for _, r := range core.Refs(flag) {
+							iff, ok := r.(*ssa.If)
+							if !ok || !iff.Block().Dominates(hin) {
+								continue
+							}
+							behindSucc := iff.Block().Succs[0]
+							skipsLoop := core.ReachInstrFrom(core.Point{Block: behindSucc, Idx: 0}, hin.Instrs[0], nil, func(x ssa.Instruction) bool { return x == ssa.Instruction(typRead) }) == nil
+							consumes := core.ReachInstrFrom(core.Point{Block: behindSucc, Idx: 0}, typRead, nil, isConsume) == nil
+							if skipsLoop && consumes {
+								formII = true
+							}
+						}
+					}
+				}
+				c.Decide(formI || formII, "R13.13", k13, c.Pos(bif), fmt.Sprintf("an element behind the cursor is consumed or refused (exhaustion exit handled=%v; entry test per known type=%v over %d positioned types)", formI, formII, len(inPairs)), "ordered parser of "+mk+": for an element of a known field type that arrives after that field's position the field loop runs the cursor past every remaining field and goes on to the next element without skipping the value or refusing it — the remaining fields' absent-actions fire early (a signature or digest range is closed at this element: bytes appended behind an Interest's parameters escape the parameters digest), the value is parsed as further elements, and nothing behind it is interpreted or checked for criticality")
+			}
+		}
 	}
 	genSizeSwitches(c, "R13.4")
 	c.Floor("R13.2", "generated parsers analysed", nParsers, 79)
